@@ -84,14 +84,15 @@ impl Inverse {
     }
     /// |w - 1/rate| <= 1  <=>  |w*m - 2^s| <= m
     pub fn within_1(&self, w: u64) -> bool {
-        let d = (w as i128) * (self.m as i128) - (1i128 << self.s);
+        // w*m < 2^88: a widening 64x64 multiplication
+        let d = (w as u128 * self.m as u128) as i128 - (1i128 << self.s);
         d.abs() <= self.m as i128
     }
     /// |w - 1/rate| <= 1 + half an f64 ulp of 1/rate (the best an f64 reciprocal plus one can do)
     pub fn within_1_plus_f64_rounding(&self, w: u64) -> bool {
         let b = 127 - self.q.leading_zeros() as i32; // 2^b <= 1/rate < 2^(b+1)
         let half_ulp_log2 = b - 53;
-        let d = (w as i128) * (self.m as i128) - (1i128 << self.s);
+        let d = (w as u128 * self.m as u128) as i128 - (1i128 << self.s);
         let bound = if half_ulp_log2 >= 0 { (self.m as i128) + ((self.m as i128) << half_ulp_log2) } else { 2 * self.m as i128 };
         d.abs() <= bound
     }
@@ -106,20 +107,23 @@ impl Inverse {
 /// num = m*((n-q)*cnt + (w1-q)*(2^53-cnt)) - rem*2^53.   None = |n-q| absurdly large (> 2^40).
 pub fn expectation_deviation_num(inv: &Inverse, n: u64, w1: u64, cnt: u64) -> Option<i128> {
     let dn = n as i128 - inv.q as i128;
-    let dw = w1 as i128 - inv.q as i128;
-    if dn.abs() > 1 << 40 || dw.abs() > 1 << 40 {
+    if dn.abs() > 1 << 40 {
         return None;
     }
-    let mix = dn * cnt as i128 + dw * (TWO53_U - cnt) as i128;
-    Some(inv.m as i128 * mix - ((inv.rem as i128) << 53))
+    // w1 - n is 0 or 1, so (n-q)*cnt + (w1-q)*(2^53-cnt) = (n-q)*2^53 + (w1-n)*(2^53-cnt); |mix| < 2^95,
+    // m < 2^24: the product cannot wrap
+    let step = (w1 - n) as i128;
+    let mix = (dn << 53) + step * (TWO53_U - cnt) as i128;
+    Some((inv.m as i128).wrapping_mul(mix) - ((inv.rem as i128) << 53))
 }
 
-#[derive(Clone)]
+/// one violation class of the sweep: how many rates fail and the LARGEST failing rate (the one
+/// closest to ordinary use); its description is rendered once, at the end (`explain`)
+#[derive(Clone, Copy)]
 pub struct KeyBest {
+    pub key: &'static str,
     pub count: u64,
     pub best_bits: u32,
-    pub what: String,
-    pub replay: Value,
 }
 
 #[derive(Default)]
@@ -140,25 +144,44 @@ pub struct ASt {
     pub n_changes: u64,
     pub n_not_monotone: u64,
     last: Option<(u64, u64)>, // (index, n)
-    pub viol: BTreeMap<String, KeyBest>,
+    pub viol: Vec<KeyBest>,
+    /// explain mode: render the descriptions of this one rate instead of counting
+    pub render: bool,
+    pub rendered: Vec<(&'static str, String, Value)>,
 }
 
 impl ASt {
-    /// keeps, per key, the LARGEST failing rate (the one closest to ordinary use) and a count
-    fn fail(&mut self, key: &str, bits: u32, what: impl FnOnce() -> String, replay: impl FnOnce() -> Value) {
-        match self.viol.get_mut(key) {
+    fn fail(&mut self, key: &'static str, bits: u32, what: impl FnOnce() -> String, replay: impl FnOnce() -> Value) {
+        if self.render {
+            self.rendered.push((key, what(), replay()));
+            return;
+        }
+        match self.viol.iter_mut().find(|k| k.key == key) {
             Some(k) => {
                 k.count += 1;
-                if bits > k.best_bits {
-                    k.best_bits = bits;
-                    k.what = what();
-                    k.replay = replay();
+                k.best_bits = k.best_bits.max(bits);
+            }
+            None => self.viol.push(KeyBest { key, count: 1, best_bits: bits }),
+        }
+    }
+    pub fn merge_viol(into: &mut BTreeMap<&'static str, KeyBest>, from: &[KeyBest]) {
+        for v in from {
+            match into.get_mut(v.key) {
+                Some(mine) => {
+                    mine.count += v.count;
+                    mine.best_bits = mine.best_bits.max(v.best_bits);
+                }
+                None => {
+                    into.insert(v.key, *v);
                 }
             }
-            None => {
-                self.viol.insert(key.to_string(), KeyBest { count: 1, best_bits: bits, what: what(), replay: replay() });
-            }
         }
+    }
+    /// description and replay of what fails at one rate under one key
+    pub fn explain(key: &str, bits: u32) -> Option<(String, Value)> {
+        let mut st = ASt { render: true, ..Default::default() };
+        check_rate(&mut st, (bits - FIRST_BITS) as u64);
+        st.rendered.into_iter().find(|(k, _, _)| *k == key).map(|(_, w, r)| (w, r))
     }
     /// (largest relative deviation rounded to f64 for display, rate bits) out of per-exponent maxima
     pub fn max_rel(tabs: &[&Vec<(u128, u32)>]) -> (f64, u32) {
@@ -170,23 +193,6 @@ impl ASt {
             }
         }
         best
-    }
-    pub fn merge_viol(into: &mut BTreeMap<String, KeyBest>, from: BTreeMap<String, KeyBest>) {
-        for (k, v) in from {
-            match into.get_mut(&k) {
-                Some(mine) => {
-                    mine.count += v.count;
-                    if v.best_bits > mine.best_bits {
-                        mine.best_bits = v.best_bits;
-                        mine.what = v.what;
-                        mine.replay = v.replay;
-                    }
-                }
-                None => {
-                    into.insert(k, v);
-                }
-            }
-        }
     }
 }
 
